@@ -1,14 +1,221 @@
 package interp
 
-// Function summaries for pure callees with one symbolic scalar argument.
+// Function summaries for pure callees with exactly one symbolic scalar argument
+// (DESIGN.md section 2.2): the callee is explored on a fresh variable in a nested
+// exploration, its result becomes one term over that variable, and the term is
+// instantiated at each call site. The summary is computed from the current SSA
+// of the callee, so a change to the callee changes the summary.
+
+import (
+	"fmt"
+	"go/types"
+	"strings"
+
+	"golang.org/x/tools/go/ssa"
+)
 
 type summaryKey struct {
-	fn   string
-	recv any
+	fn  *ssa.Function
+	key string
 }
 
 type summary struct {
-	v    *Term // formal
-	body *Term // result as a function of v
-	kind int
+	formal *Term
+	body   *Term // nil: not summarisable
+	kind   types.BasicKind
+}
+
+// SummariseFns lists the functions (by ssa String()) that are summarised; harness
+// functions whose name starts with verifSum are summarised too.
+var SummariseFns = map[string]bool{
+	"(github.com/dlclark/regexp2/v2/syntax.CharSet).CharIn":   true,
+	"github.com/dlclark/regexp2/v2/syntax.IsWordChar":         true,
+	"github.com/dlclark/regexp2/v2/syntax.IsECMAWordChar":     true,
+	"github.com/dlclark/regexp2/v2/helpers.IsWordChar":        true,
+	"github.com/dlclark/regexp2/v2.charInFixedDistanceSet":    true,
+}
+
+// SummariesOff disables summaries (harnesses that check the summarised functions themselves).
+var SummariesOff = false
+
+const summaryMaxPaths = 96
+
+var summarisable = map[*ssa.Function]int8{}
+
+func wantSummary(fn *ssa.Function) bool {
+	if s, ok := summarisable[fn]; ok {
+		return s > 0
+	}
+	ok := SummariseFns[fn.String()] || (strings.HasPrefix(fn.Name(), "verifSum") && fn.Parent() == nil)
+	if ok {
+		// result must be a single bool or integer
+		res := fn.Signature.Results()
+		if res.Len() != 1 {
+			ok = false
+		} else if b, isB := res.At(0).Type().Underlying().(*types.Basic); !isB || b.Info()&(types.IsBoolean|types.IsInteger) == 0 {
+			ok = false
+		}
+	}
+	if ok {
+		summarisable[fn] = 1
+	} else {
+		summarisable[fn] = -1
+	}
+	return ok
+}
+
+// deepKey serialises a concrete value; ok=false if it contains anything symbolic
+// or unsupported.
+func deepKey(sb *strings.Builder, v value, depth int) bool {
+	if depth > 6 {
+		return false
+	}
+	switch x := v.(type) {
+	case nil:
+		sb.WriteString("N")
+	case bool, int, int8, int16, int32, int64, uint, uint8, uint16, uint32, uint64, uintptr:
+		fmt.Fprintf(sb, "%v,", x)
+	case string:
+		fmt.Fprintf(sb, "%q,", x)
+	case []value:
+		fmt.Fprintf(sb, "[%d:", len(x))
+		for _, e := range x {
+			if !deepKey(sb, e, depth+1) {
+				return false
+			}
+		}
+		sb.WriteString("]")
+	case structure:
+		sb.WriteString("{")
+		for _, e := range x {
+			if !deepKey(sb, e, depth+1) {
+				return false
+			}
+		}
+		sb.WriteString("}")
+	case array:
+		sb.WriteString("<")
+		for _, e := range x {
+			if !deepKey(sb, e, depth+1) {
+				return false
+			}
+		}
+		sb.WriteString(">")
+	case *value:
+		if x == nil {
+			sb.WriteString("nil,")
+		} else {
+			sb.WriteString("&")
+			if !deepKey(sb, *x, depth+1) {
+				return false
+			}
+		}
+	default:
+		return false
+	}
+	return true
+}
+
+// trySummary returns the summarised result of fn(args) if applicable.
+func trySummary(i *interpreter, caller *frame, fn *ssa.Function, args []value) (value, bool) {
+	x := X
+	if x == nil || !x.inCheck || SummariesOff || x.inSummary > 0 || Sched != nil {
+		return nil, false
+	}
+	symIdx := -1
+	var sb strings.Builder
+	for k, a := range args {
+		if s, ok := a.(sym); ok {
+			if symIdx >= 0 || s.k == types.Bool {
+				return nil, false
+			}
+			symIdx = k
+			fmt.Fprintf(&sb, "$%d;", s.k)
+			continue
+		}
+		if !deepKey(&sb, a, 0) {
+			return nil, false
+		}
+		sb.WriteString(";")
+	}
+	if symIdx < 0 {
+		return nil, false
+	}
+	key := summaryKey{fn, sb.String()}
+	s, ok := x.summaries[key]
+	if !ok {
+		s = computeSummary(i, caller, fn, args, symIdx)
+		x.summaries[key] = s
+	}
+	if s.body == nil {
+		return nil, false
+	}
+	x.Intrinsics["summary:"+fn.Name()]++
+	actual := args[symIdx].(sym).t
+	return mkVal(s.kind, Subst(s.body, s.formal, actual)), true
+}
+
+var summaryN = 0
+
+func computeSummary(i *interpreter, caller *frame, fn *ssa.Function, args []value, symIdx int) *summary {
+	outer := X
+	as := args[symIdx].(sym)
+	summaryN++
+	sx := NewExplorer(outer.S)
+	sx.inSummary = 1
+	sx.PathBudget = summaryMaxPaths
+	sx.StepBudget = 200000
+	sx.MaxSamples = 0
+	X = sx
+	w := kindWidth(as.k)
+	var formal *Term
+	if w == 32 && as.k == types.Int32 {
+		formal = sx.NewVar(fmt.Sprintf("sumarg%d", summaryN), 32, uint64(domainRanges()[0][0]), func(v *Term) *Term { return runeDomainTerm(v, 0, 0x10FFFF) })
+	} else {
+		formal = sx.NewVar(fmt.Sprintf("sumarg%d", summaryN), w, 0, nil)
+	}
+	resKind := fn.Signature.Results().At(0).Type().Underlying().(*types.Basic).Kind()
+	type pathRes struct {
+		cond *Term
+		val  *Term
+	}
+	var results []pathRes
+	failed := false
+	func() {
+		defer func() {
+			X = outer
+			if r := recover(); r != nil {
+				if _, isBug := r.(engineBug); isBug {
+					panic(r)
+				}
+				failed = true
+			}
+		}()
+		sx.trailOn = true
+		sx.trailBase = 0
+		sx.Explore(func() {
+			a2 := append([]value(nil), args...)
+			a2[symIdx] = sym{as.k, formal}
+			res := callSSA(i, caller, 0, fn, a2, nil)
+			rt, _ := termOf(res)
+			c := TTrue
+			for _, l := range sx.literals() {
+				c = TAnd(c, l)
+			}
+			results = append(results, pathRes{c, rt})
+		})
+		sx.trailOn = false
+		sx.rollbackTo(0)
+	}()
+	outer.Intrinsics["summary-computed"]++
+	if failed || len(sx.Undecided) > 0 || len(sx.Aborted) > 0 || len(results) == 0 {
+		outer.Intrinsics["summary-declined"]++
+		return &summary{}
+	}
+	// the last path's value is the default; the paths partition the domain
+	body := results[len(results)-1].val
+	for k := len(results) - 2; k >= 0; k-- {
+		body = TIte(results[k].cond, results[k].val, body)
+	}
+	return &summary{formal: formal, body: body, kind: resKind}
 }
